@@ -41,14 +41,57 @@ def get_aln(taxa_idx, slice_idx):
     return _cache[key]
 
 
+ML_CONFIGS = [
+    dict(model="BH", loci=["a", "b"], nodeg=True),
+    dict(model="DT", loci=["a", "b"], nodeg=True),
+    dict(model="BH", nodeg=True),
+    dict(model="HKY85", loci=["a", "b"]),
+    dict(model="GTR", loci=["a", "b", "c"]),
+    dict(model="GN", loci=["a", "b"]),
+    dict(model="HKY85", mkw=dict(with_rate=True, distribution="gamma"), bins=2),
+    dict(model="TN93", mkw=dict(with_rate=True, distribution="gamma"), bins=3),
+    dict(model="HKY85", mkw=dict(with_rate=True, distribution="gamma"), bins=2, loci=["a", "b"]),
+]
+
+
+def get_aln_nodeg(taxa_idx, slice_idx):
+    """as get_aln but without any gap / ambiguity character (discrete-time models reject them)"""
+    key = ("nodeg", taxa_idx, slice_idx)
+    if key not in _cache:
+        taxa, _ = TAXA_SETS[taxa_idx]
+        sub = _data().take_seqs(taxa).no_degenerates()
+        lo = [0, 150, 400, 37][slice_idx % 4]
+        n = [240, 180, 300, 120][slice_idx % 4]
+        _cache[key] = sub[lo : lo + n]
+    return _cache[key]
+
+
+def case_alns(case, idx):
+    """the alignment (or one per locus) number idx of the case"""
+    get = get_aln_nodeg if case.get("nodeg") else get_aln
+    if case.get("loci"):
+        return [get(case["taxa"], idx + i) for i in range(len(case["loci"]))]
+    return get(case["taxa"], idx)
+
+
 def new_lf(case):
     from cogent3 import get_model, make_tree
 
     taxa, newick = TAXA_SETS[case["taxa"]]
-    sm = get_model(case["model"])
-    lf = sm.make_likelihood_function(make_tree(newick))
-    lf.set_alignment(get_aln(case["taxa"], case["aln0"]))
+    sm = get_model(case["model"], **(case.get("mkw") or {}))
+    kw = {}
+    if case.get("loci"):
+        kw["loci"] = list(case["loci"])
+    if case.get("bins"):
+        kw["bins"] = case["bins"]
+    lf = sm.make_likelihood_function(make_tree(newick), **kw)
+    lf.set_alignment(case_alns(case, case["aln0"]))
+    lf._c07_case = case
     return lf
+
+
+def is_ml(case):
+    return bool(case.get("loci") or case.get("bins") or case.get("nodeg"))
 
 
 def param_names(lf):
@@ -238,9 +281,9 @@ def apply_op(lf, op, log, postponed_depth=0):
             if k == "rule":
                 lf.set_param_rule(op[1], **op[2])
             elif k == "mprobs":
-                lf.set_motif_probs(op[1])
+                lf.set_motif_probs(op[1], **(op[2] if len(op) > 2 else {}))
             elif k == "aln":
-                lf.set_alignment(get_aln(lf._c07_taxa, op[1]))
+                lf.set_alignment(case_alns(lf._c07_case, op[1]))
             elif k == "bad":
                 _bad_op(lf, op[1])
             elif k == "opt":
@@ -285,7 +328,108 @@ def observe(lf):
             d["mprobs"] = {k: float(v) for k, v in mp.to_dict().items()}
         except Exception as ex:  # noqa
             d["mprobs"] = type(ex).__name__
+        # the full optimiser parameter vector of a calculator made from the function
+        try:
+            d["optvec"] = sorted(float(x) for x in lf.make_calculator().get_value_array())
+        except Exception as ex:  # noqa
+            d["optvec"] = type(ex).__name__
     return d
+
+
+def vec_close(a, b, tol=1e-9):
+    if not isinstance(a, list) or not isinstance(b, list):
+        return a == b
+    return len(a) == len(b) and all(abs(x - y) <= tol * max(1.0, abs(x), abs(y)) for x, y in zip(a, b))
+
+
+# --------------------------------------------------------------------------
+# multi-locus / discrete-time / rate-heterogeneity cases
+# --------------------------------------------------------------------------
+def settable(lf):
+    """[(param, valid dimensions, is_scalar)] of the leaf definitions a rule can address"""
+    from cogent3.recalculation.definition import ParamDefn
+    from cogent3.recalculation.scope import _LeafDefn
+
+    res = []
+    for p in lf.get_param_names():
+        d = lf.defn_for.get(p)
+        if isinstance(d, _LeafDefn):
+            res.append((p, tuple(d.valid_dimensions), isinstance(d, ParamDefn)))
+    return res
+
+
+def rand_scope(rng, dims, lf):
+    kw = {}
+    cats = dict(edge=edge_names(lf), locus=list(lf.locus_names), bin=list(lf.bin_names))
+    single = dict(edge="edge", locus="locus", bin="bin")
+    plural = dict(edge="edges", locus="loci", bin="bins")
+    for dname in dims:
+        c = cats.get(dname) or []
+        if len(c) < 2:
+            continue
+        r = rng.random()
+        if r < 0.35:
+            continue
+        if r < 0.6:
+            kw[single[dname]] = rng.choice(c)
+        else:
+            kw[plural[dname]] = sorted(rng.sample(c, rng.randint(2, len(c))))
+    return kw
+
+
+def rand_ml_op(rng, lf):
+    pars = settable(lf)
+    r = rng.random()
+    if r < 0.12 and any(p == "mprobs" for p, _, _ in pars):
+        w = [rng.uniform(0.5, 2.0) for _ in range(4)]
+        t = sum(w)
+        kw = {}
+        if len(lf.locus_names) > 1 and rng.random() < 0.7:
+            kw["locus"] = rng.choice(list(lf.locus_names))
+        return ["mprobs", {b: x / t for b, x in zip("TCAG", w)}, kw]
+    p, dims, scalar = rng.choice(pars)
+    kw = rand_scope(rng, dims, lf)
+    if kw and rng.random() < 0.8:
+        kw["is_independent"] = rng.random() < 0.45
+    if scalar:
+        v = round(rng.choice([0.3, 0.7, 1.0, 1.5, 2.5]) * rng.uniform(0.8, 1.25), 6)
+        if p == "length":
+            v = round(v / 4, 6)
+        m = rng.random()
+        if m < 0.25:
+            kw["is_constant"] = True
+            kw["value"] = v
+        elif m < 0.8:
+            kw["init"] = v
+        else:
+            kw["init"] = v
+            if rng.random() < 0.5:
+                kw["lower"] = round(v / 3, 6)
+            else:
+                kw["upper"] = round(v * 3, 6)
+    elif rng.random() < 0.2:
+        kw["is_constant"] = True
+    return ["rule", p, kw]
+
+
+def rand_ml_case(rng, n_ops, opt_budget=(3, 8)):
+    cfg = dict(rng.choice(ML_CONFIGS))
+    case = dict(cfg, taxa=rng.choice([0, 2]) if cfg.get("model") in ("BH", "DT") else rng.randrange(len(TAXA_SETS)),
+                aln0=rng.randrange(4))
+    lf = new_lf(case)
+    ops = []
+    for _ in range(n_ops):
+        r = rng.random()
+        if r < 0.7:
+            ops.append(rand_ml_op(rng, lf))
+        elif r < 0.85:
+            ops.append(["block", [rand_ml_op(rng, lf) for _ in range(rng.randint(1, 3))]])
+        elif r < 0.93:
+            ops.append(["calc", rng.randrange(10**9), rng.randint(2, 5)])
+        else:
+            ops.append(["opt", dict(max_evaluations=rng.choice(opt_budget), local=True)])
+    case["ops"] = ops
+    return case
 
 
 def close(a, b, rtol=RTOL):
@@ -296,12 +440,40 @@ def close(a, b, rtol=RTOL):
     return abs(a - b) <= rtol * max(1.0, abs(a), abs(b))
 
 
-def fresh_from_rules(case, lf, aln_idx):
-    """oracle O2: a NEW function given the exported rules"""
+def fresh_from_rules(case, lf, aln_idx, reorder=False):
+    """oracle O2: a NEW function given the exported rules (reorder=True: diagnostic, the same rules
+    with, per parameter, the rules of larger scope rectangles first)"""
     f = new_lf(dict(case, aln0=aln_idx))
     with _Quiet():
-        f.apply_param_rules(lf.get_param_rules())
+        rules = lf.get_param_rules()
+        if reorder:
+            rules = rules_large_scope_first(lf, rules)
+        f.apply_param_rules(rules)
     return f
+
+
+def rules_large_scope_first(lf, rules):
+    n = dict(edge=len(edge_names(lf)), locus=len(lf.locus_names), bin=len(lf.bin_names))
+
+    def size(r):
+        t = 1
+        for single, plural in (("edge", "edges"), ("locus", "loci"), ("bin", "bins")):
+            if plural in r and r[plural] is not None:
+                t *= len(r[plural])
+            elif single in r and r[single] is not None:
+                t *= 1
+            else:
+                t *= max(1, n[single])
+        return t
+
+    order = []
+    for r in rules:
+        if r["par_name"] not in order:
+            order.append(r["par_name"])
+    out = []
+    for p in order:
+        out += sorted([r for r in rules if r["par_name"] == p], key=lambda r: -size(r))
+    return out
 
 
 def fresh_constant(case, lf, aln_idx, obs):
